@@ -57,7 +57,11 @@ class ForwardAnalysis(Generic[T], Analysis[T], ABC):
         vals_after = {bb: self.apply_bb(vals_before[bb], bb) for bb in bbs}  # cache
         queue = set(bbs)
         while len(queue) > 0:
-            bb = queue.pop()
+            # Continue with the block of smallest index. `set.pop` picks by memory address,
+            # which made liveness witnesses, and the diagnostics built from them, vary
+            # from run to run
+            bb = min(queue, key=lambda bb: bb.idx)
+            queue.remove(bb)
             preds = (
                 bb.predecessors + bb.dummy_predecessors
                 if self.include_unreachable()
@@ -88,7 +92,11 @@ class BackwardAnalysis(Generic[T], Analysis[T], ABC):
         vals_before = {bb: self.initial() for bb in bbs}
         queue = set(bbs)
         while len(queue) > 0:
-            bb = queue.pop()
+            # Continue with the block of smallest index. `set.pop` picks by memory address,
+            # which made liveness witnesses, and the diagnostics built from them, vary
+            # from run to run
+            bb = min(queue, key=lambda bb: bb.idx)
+            queue.remove(bb)
             succs = (
                 bb.successors + bb.dummy_successors
                 if self.include_unreachable()
